@@ -301,14 +301,6 @@ theorem setParts_not_lands (parts : List String) (o v v' : PyVal) (h : lands par
         · rename_i hg; simp only [hg, if_false, ih _ h]
     | _ => rfl
 
-/-- the segment is a plain key or an index that is not negative: the position it denotes does not depend
-    on the current length of the list -/
-def stableSeg (p : String) : Bool :=
-  match parseSeg p with
-  | .invalid => false
-  | .key _ => true
-  | .index _ i => decide (0 ≤ i)
-
 theorem childDict_isDict (c : Option PyVal) : ∃ d, childDict c = .dict d := by
   unfold childDict; split
   · exact ⟨_, rfl⟩
@@ -433,3 +425,125 @@ theorem anyLeaf_setParts_lands (P : PyVal → Bool) (parts : List String) (o v :
                 · rw [anyOtherL_ensureSize] at h''; simp [anyOtherL] at h''
           · exact Or.inl h'
     | _ => simp [lands] at hl
+
+/-! ### `setByPath` (the split path) -/
+
+theorem splitOnChar_ne_nil (sep : Char) (acc cs : List Char) : PyVal.splitOnChar sep acc cs ≠ [] := by
+  induction cs generalizing acc with
+  | nil => simp [PyVal.splitOnChar]
+  | cons c cs ih =>
+    simp only [PyVal.splitOnChar]
+    split
+    · simp
+    · exact ih _
+
+theorem splitStr_ne_nil (sep : Char) (s : String) : PyVal.splitStr sep s ≠ [] := by
+  simp [PyVal.splitStr, splitOnChar_ne_nil]
+
+theorem setByPath_eq (obj : PyVal) (path : String) (v : PyVal) :
+    setByPath obj path v = setParts (PyVal.splitStr '.' path) obj v := by
+  unfold setByPath
+  split
+  · rename_i h; exact absurd h (splitStr_ne_nil _ _)
+  · rfl
+
+theorem getByPath_eq (obj : PyVal) (path : String) :
+    getByPath obj path = getParts (PyVal.splitStr '.' path) obj := by
+  unfold getByPath
+  split
+  · rename_i h; exact absurd h (splitStr_ne_nil _ _)
+  · rfl
+
+theorem landsPath_eq (obj : PyVal) (path : String) :
+    landsPath obj path = lands (PyVal.splitStr '.' path) obj := by
+  unfold landsPath
+  split
+  · rename_i h; exact absurd h (splitStr_ne_nil _ _)
+  · rfl
+
+theorem leakOutsidePath_eq (P : PyVal → Bool) (obj : PyVal) (path : String) :
+    leakOutsidePath P obj path = leakOutside P (PyVal.splitStr '.' path) obj := by
+  unfold leakOutsidePath
+  split
+  · rename_i h; exact absurd h (splitStr_ne_nil _ _)
+  · rfl
+
+theorem setParts_dict (parts : List String) (kvs : List (String × PyVal)) (v : PyVal) (h : parts ≠ []) :
+    ∃ kvs', setParts parts (.dict kvs) v = .dict kvs' := by
+  cases parts with
+  | nil => exact absurd rfl h
+  | cons p rest =>
+    simp only [setParts]
+    cases parseSeg p with
+    | invalid => exact ⟨_, rfl⟩
+    | key k => exact ⟨_, rfl⟩
+    | index k idx => simp only; split <;> exact ⟨_, rfl⟩
+
+/-- a dict stays a dict -/
+theorem setByPath_dict (kvs : List (String × PyVal)) (path : String) (v : PyVal) :
+    ∃ kvs', setByPath (.dict kvs) path v = .dict kvs' := by
+  rw [setByPath_eq]; exact setParts_dict _ _ _ (splitStr_ne_nil _ _)
+
+/-! ### the write list of `apply_obligations` -/
+
+theorem applyWrites_append (o : PyVal) (ws ws' : List (String × PyVal)) :
+    applyWrites o (ws ++ ws') = applyWrites (applyWrites o ws) ws' := by
+  simp [applyWrites, List.foldl_append]
+
+theorem applyWrites_cons (o : PyVal) (w : String × PyVal) (ws : List (String × PyVal)) :
+    applyWrites o (w :: ws) = applyWrites (setByPath o w.1 w.2) ws := rfl
+
+/-- later (and earlier) writes never introduce a `P`-leaf that neither the object nor a placeholder had -/
+theorem anyLeaf_applyWrites (P : PyVal → Bool) (ws : List (String × PyVal)) (o : PyVal) :
+    anyLeaf P (applyWrites o ws) = true → anyLeaf P o = true ∨ ∃ w ∈ ws, anyLeaf P w.2 = true := by
+  induction ws generalizing o with
+  | nil => exact Or.inl
+  | cons w ws ih =>
+    rw [applyWrites_cons]
+    intro h
+    rcases ih _ h with h' | ⟨w', hw', h'⟩
+    · rw [setByPath_eq] at h'
+      rcases anyLeaf_setParts P _ _ _ h' with h'' | h''
+      · exact Or.inl h''
+      · exact Or.inr ⟨w, List.mem_cons_self, h''⟩
+    · exact Or.inr ⟨w', List.mem_cons_of_mem _ hw', h'⟩
+
+theorem applyWrites_dict (ws : List (String × PyVal)) (kvs : List (String × PyVal)) :
+    ∃ kvs', applyWrites (.dict kvs) ws = .dict kvs' := by
+  induction ws generalizing kvs with
+  | nil => exact ⟨kvs, rfl⟩
+  | cons w ws ih =>
+    rw [applyWrites_cons]
+    obtain ⟨k1, h1⟩ := setByPath_dict kvs w.1 w.2
+    rw [h1]; exact ih k1
+
+/-- when no spec raises, `apply_obligations` is the fold of `_set_by_path` over `allWrites` -/
+theorem applySpecs_of_allWrites (specs : List PyVal) (ws : List (String × PyVal)) (o : PyVal)
+    (h : allWrites specs = some ws) : applySpecs o specs = (applyWrites o ws, false) := by
+  induction specs generalizing o ws with
+  | nil => simp only [allWrites, Option.some.injEq] at h; subst h; rfl
+  | cons ob rest ih =>
+    simp only [allWrites] at h
+    cases h1 : specWrites ob with
+    | none => simp [h1] at h
+    | some w1 =>
+      cases h2 : allWrites rest with
+      | none => simp [h1, h2] at h
+      | some w2 =>
+        simp only [h1, h2, Option.some.injEq] at h
+        subst h
+        simp only [applySpecs, h1, applyWrites_append]
+        exact ih w2 _ h2
+
+/-- a raise is exactly a spec that is not a mapping / whose `fields` cannot be iterated -/
+theorem applySpecs_raised_iff (specs : List PyVal) (o : PyVal) :
+    (applySpecs o specs).2 = true ↔ allWrites specs = none := by
+  induction specs generalizing o with
+  | nil => simp [applySpecs, allWrites]
+  | cons ob rest ih =>
+    simp only [applySpecs, allWrites]
+    cases h1 : specWrites ob with
+    | none => simp
+    | some w1 =>
+      simp only [ih]
+      cases allWrites rest <;> simp
